@@ -142,4 +142,47 @@ theorem goR_invalid_iff (args : List Arg) (exp : Option Ty) :
           have := (hprev 0 (Nat.succ_pos _) v rfl).1
           rw [hv] at this; cases this
 
+/-! ### the scalar fragment of the acceptance model against `Widens` -/
+
+instance (a p : Scalar) : Decidable (Widens a p) := by
+  cases a <;> cases p <;>
+    first
+      | exact isTrue (.refl _) | exact isTrue .natInt | exact isTrue .intFloat | exact isTrue .natFloat
+      | exact isFalse (fun h => by cases h)
+
+theorem checkTypeAgainst_scalar (a p : Scalar) :
+    checkTypeAgainst [] a.toTy p.toTy = (if decide (Widens a p) then some [] else none) := by
+  cases a <;> cases p <;> rfl
+
+theorem subst_scalar (σ : Subst) (p : Scalar) : p.toTy.subst σ = p.toTy := by
+  cases p <;> rfl
+
+theorem checkArgs_scalar : ∀ (ps as : List Scalar), ps.length = as.length →
+    ((checkArgs [] (ps.map Scalar.toTy) [] (as.map (fun a => Arg.typed a.toTy))).1 = some [] ↔
+        AllWiden as ps) ∧
+      ((checkArgs [] (ps.map Scalar.toTy) [] (as.map (fun a => Arg.typed a.toTy))).1 = some [] ∨
+        (checkArgs [] (ps.map Scalar.toTy) [] (as.map (fun a => Arg.typed a.toTy))).1 = none)
+  | [], [], _ => by simp [checkArgs, AllWiden.nil]
+  | p :: ps, a :: as, h => by
+    have ih := checkArgs_scalar ps as (by simpa using h)
+    simp only [List.map_cons, checkArgs, checkArg, subst_scalar, checkTypeAgainst_scalar]
+    by_cases hw : Widens a p
+    · simp only [hw, decide_true, ↓reduceIte, List.headD_nil, Bool.false_and, Bool.false_eq_true,
+        List.tail_nil]
+      refine ⟨⟨fun h' => .cons hw (ih.1.mp h'), fun h' => ?_⟩, ih.2⟩
+      cases h' with
+      | cons _ h2 => exact ih.1.mpr h2
+    · simp only [hw, decide_false, Bool.false_eq_true, ↓reduceIte, reduceCtorEq, or_true, and_true,
+        false_iff]
+      intro h'
+      cases h' with
+      | cons h1 _ => exact hw h1
+  | [], _ :: _, h => by simp at h
+  | _ :: _, [], h => by simp at h
+
+theorem beq_scalar (a b : Scalar) : (a.toTy == b.toTy) = decide (a = b) := by
+  cases a <;> cases b <;> rfl
+
+theorem closed_scalar (a : Scalar) : a.toTy.closed = true := by cases a <;> rfl
+
 end GuppyVerif.Overload
